@@ -173,3 +173,66 @@ func lockClassOf(v ssa.Value) *types.Var {
 	}
 	return nil
 }
+
+// pendingRequests methods by role (renames must not matter)
+type pendingRoleSet struct {
+	typ                           *types.Named
+	store, loadAndDelete, closing *ssa.Function
+	register                      *ssa.Function // the ClientConn method that registers a request (calls store)
+}
+
+var pendingRoleCache = map[*Prog]*pendingRoleSet{}
+
+func getPendingRoles(p *Prog) *pendingRoleSet {
+	if pr, ok := pendingRoleCache[p]; ok {
+		return pr
+	}
+	pr := &pendingRoleSet{typ: p.Named("proxycore", "pendingRequests")}
+	for _, m := range p.methodsOf(pr.typ) {
+		m := m
+		has := func(name string) bool {
+			return callsDirectly(m, func(c ssa.CallInstruction) bool { return callIsMethod(c, "sync", "Map", name) })
+		}
+		switch {
+		case has("Range"):
+			pr.closing = m
+		case has("LoadAndDelete") || (has("Load") && has("Delete")) || (has("Load") && !has("Store")):
+			pr.loadAndDelete = m
+		case has("Store") || has("LoadOrStore"):
+			pr.store = m
+		}
+	}
+	if pr.store == nil || pr.loadAndDelete == nil || pr.closing == nil {
+		fatalf("anchor: could not resolve the store / remove / notify-all methods of pendingRequests by role")
+	}
+	cc := p.Named("proxycore", "ClientConn")
+	for _, m := range p.methodsOf(cc) {
+		if callsDirectly(m, func(c ssa.CallInstruction) bool { return c.Common().StaticCallee() == pr.store }) {
+			pr.register = m
+		}
+	}
+	pendingRoleCache[p] = pr
+	return pr
+}
+
+// fieldByType returns the unique field of struct pkg.typ whose type satisfies pred.
+func (p *Prog) fieldByType(pkg, typ string, pred func(types.Type) bool) *types.Var {
+	n := p.NamedOpt(pkg, typ)
+	if n == nil {
+		return nil
+	}
+	st, ok := n.Underlying().(*types.Struct)
+	if !ok {
+		return nil
+	}
+	var found *types.Var
+	for i := 0; i < st.NumFields(); i++ {
+		if pred(st.Field(i).Type()) {
+			if found != nil {
+				return nil
+			}
+			found = st.Field(i)
+		}
+	}
+	return found
+}
